@@ -165,7 +165,10 @@ def grouped_hostile(l1: int, f1: int, l2: int, f2: int, l3: int, tail: bytes) ->
         return hx.check((l1, f1, l2, f2, l3, tail), (r1,), ("decode-error",), "outer grouped AVP")
     r2 = _classify(lambda: _walk(box["a"], 0))
     r3 = _classify(lambda: str(box["a"]))
-    return hx.holds((l1, f1, l2, f2, l3, tail), r2 in ("ok", "decode-error") and r3 == "ok", (r2, r3), "nested grouped decode must return or raise AvpDecodeError")
+    r4 = _classify(lambda: _walk(box["a"], 0))          # reading again (also after the rendering) gives the same verdict: a malformed
+    r5 = _classify(lambda: str(box["a"]))               # payload raises on every read, it does not turn into a partial value
+    return hx.holds((l1, f1, l2, f2, l3, tail), r2 in ("ok", "decode-error") and r3 == "ok" and r4 == r2 and r5 == "ok", (r2, r3, r4, r5),
+                    "nested grouped decode must return or raise AvpDecodeError - on every read")
 
 
 # ----------------------------------------------------------------------------- 4. whole messages
